@@ -5,7 +5,7 @@ from vlib.core import Sub, Failure
 from vlib import env, lists as L
 
 pytrs = env.import_pytrs()
-from pytrs import PLSSDesc, Tract, find_sec  # noqa: E402
+from pytrs import PLSSDesc, Tract, TractList, find_sec  # noqa: E402
 
 ID = "C05"
 RULE = (
@@ -161,6 +161,14 @@ def sec_oracle(c):
         trs = {t.twprge for t in d.tracts}
         if trs != {"154n97w"}:
             fails.append(Failure("plss_twprge", f"PLSSDesc({full!r}) twprge {sorted(trs)}", text=full))
+    if c["layout"] == "TRS_desc" and "colon" not in mode:          # (the colon modes ask for a colon, which these texts do not have)
+        # a list that ends the text (nothing is described after it) still names one tract per section
+        for shape, tail_text, lead in (("list_ends_text", f"T154N-R97W {text}", []), ("list_ends_text_after_a_tract", f"T154N-R97W Sec 36: NE/4, {text}", ["36"]),
+                                       ("list_ends_text_colon", f"T154N-R97W {text}:\n", [])):
+            dt = PLSSDesc(tail_text, config=cfg)
+            if [t.sec for t in dt.tracts] != lead + exp:
+                fails.append(Failure(f"plss_secs_{shape}", f"PLSSDesc({tail_text!r}) sections {[t.sec for t in dt.tracts]}, expected {lead + exp}", text=tail_text))
+                break
     want_flag = L.has_descending(items)
     got_flag = "nonsequential_sections" in d.w_flags
     if want_flag != got_flag:
@@ -203,6 +211,29 @@ def lot_oracle(c):
             fails.append(Failure("lots_via_plssdesc", f"PLSSDesc tract for {text!r}: lots {pt.lots} / ilots {pt.ilots}, expected {exp}", text=text))
         elif ("nonsequential_lots" in pt.w_flags) != L.has_descending(items):
             fails.append(Failure("nonsequential_lots_via_plssdesc", f"PLSSDesc tract for {text!r}: nonsequential_lots present={'nonsequential_lots' in pt.w_flags}, expected {L.has_descending(items)}; w_flags={pt.w_flags}", text=text))
+    # ... of every tract of a multi-section block, also when the lots are parsed afterwards (parse_tracts), and of stand-alone
+    # tracts parsed together as a TractList
+    want = L.has_descending(items)
+    dm = PLSSDesc(f"T154N-R97W Sec 5 - 7: {text}")
+    dm.parse_tracts()
+    tl = TractList([Tract(text, trs="154n97w01"), Tract(text, trs="154n97w02")])
+    tl.parse_tracts()
+    for how, objs, n_exp in (("PLSSDesc('Sec 5 - 7: ...').parse_tracts()", list(dm.tracts), 3), ("TractList.parse_tracts()", list(tl), 2)):
+        if len(objs) != n_exp:
+            continue
+        for k, pt in enumerate(objs):
+            if list(pt.lots) != exp or list(pt.ilots) != nums:
+                fails.append(Failure("lots_via_parse_tracts", f"{how} for {text!r}: tract {k} lots {pt.lots} / ilots {pt.ilots}, expected {exp}", text=text))
+                break
+            if ("nonsequential_lots" in pt.w_flags) != want:
+                fails.append(Failure("nonsequential_lots_via_parse_tracts", f"{how} for {text!r}: tract {k} nonsequential_lots present={'nonsequential_lots' in pt.w_flags}, expected {want}; w_flags={pt.w_flags}", text=text))
+                break
+    # the description of an existing (parsed) object replaced by this one
+    re_t = Tract("Lots 8 thru 6, and Lot 12", parse_qq=(prior != "unparsed_first"))
+    re_t.desc = text
+    re_t.parse()
+    if list(re_t.lots) != exp or list(re_t.ilots) != nums or ("nonsequential_lots" in re_t.w_flags) != want:
+        fails.append(Failure("lots_after_desc_reassigned", f"Tract whose .desc was set to {text!r} and parsed: lots {re_t.lots} w_flags {re_t.w_flags}, expected {exp} / nonsequential={want}", text=text))
     want_flag = L.has_descending(items)
     got_flag = "nonsequential_lots" in t.w_flags
     if want_flag != got_flag:
